@@ -11,6 +11,12 @@
 // (2) the wait seam records the `options` of every wait: a stop event that arrives at a wait that did not ask for
 // stop notifications is reported (the kernel would never have delivered it: the event is lost and the wait blocks
 // forever on a child nobody continues) and then delivered anyway, so that the run ends.
+// Fault dimension "what a failing call leaves in errno": a fork seam that fails does so with every errno value a failing
+// fork can leave (EAGAIN, ENOMEM, ENOSYS, EINTR, ..., 0, an arbitrary value, or errno not touched at all and still holding
+// a stale value from an earlier call), at any test of a registry of real tests (dying ones included), on the first, the
+// second or both passes; a failing wait likewise. The statement does not mention errno: a failing fork is one failure of
+// that test whatever errno says, the other tests get their children, and the runner-process monitor sees a test that is
+// run in the runner instead.
 #include "verif.h"
 #include <csignal>
 #include <deque>
@@ -32,13 +38,30 @@ enum Where { W_CTOR, W_SETUP, W_BODY, W_TEARDOWN, W_DTOR, W_PRE, W_POST, W_N };
 static const char* WHERE[] = { "constructor", "setup", "body", "teardown", "destructor", "plugin-pre", "plugin-post" };
 enum Act { A_NONE, A_RAISE, A_EXIT, A_UEXIT, A_FAILCHECK, A_ABORT, A_SEGV, A_STOPS, A_PLUGIN_REPORTS, A_MANY_FAILURES, A_SLEEP_MS };
 static const char* ACT[] = { "none", "raise", "exit", "_exit", "failing-check", "abort", "null-write", "raise-SIGSTOP", "plugin-reports-failure", "many-non-terminating-failures", "sleep-ms" };
-struct Plan { int act = A_NONE; int where = W_BODY; int arg = 0; int after = A_NONE; int after_arg = 0; int ignored = 0; };   // `after`: what follows k stops; ignored: the shell is an IGNORE_TEST
+struct Plan { int act = A_NONE; int where = W_BODY; int arg = 0; int after = A_NONE; int after_arg = 0; int ignored = 0;   // `after`: what follows k stops; ignored: the shell is an IGNORE_TEST
+              int fork_fault = 0; int fork_errno = 0; int fork_stale = 0; int fork_passes = 3; };   // the fork for this test fails (on the passes of the bit mask) leaving fork_errno; stale: the seam does not touch errno, which still holds fork_errno from an earlier call
 struct Cfg { bool run_ignored = false; bool via_shell_flag = false; int repeats = 1; };   // registry "run ignored"; separate process requested per shell instead of by the registry; runAllTests passes
 
 // The process that calls runAllTests(). A deadly action must never get to execute there: in separate-process mode the
 // test has to be in a child of its own. The action is skipped and reported instead of taking the harness down.
 static int g_parent_pid;
-static int g_deadly_in_parent; static int g_deadly_act, g_deadly_where, g_deadly_arg, g_deadly_ignored;
+static int g_deadly_in_parent; static int g_deadly_act, g_deadly_where, g_deadly_arg, g_deadly_ignored, g_deadly_fork_fault, g_deadly_fork_errno;
+static int g_bodies_in_runner;                  // test bodies (of any kind) that were executed by the process that called runAllTests()
+static int g_fork_failed_for_test = -2;         // index of the test whose fork was made to fail last (-2: none in this pass)
+static int g_current_test = -1;                 // set by the recording output when a test starts
+static int g_pass;                              // which runAllTests() pass over the registry is running (0, 1)
+
+// what a failing fork / wait may leave in errno, as a class for keys and counters
+static const char* errno_label(int e) {
+    switch (e) {
+    case 0: return "0"; case EAGAIN: return "EAGAIN"; case ENOMEM: return "ENOMEM"; case ENOSYS: return "ENOSYS"; case EINTR: return "EINTR";
+    case EPERM: return "EPERM"; case ECHILD: return "ECHILD"; case EINVAL: return "EINVAL"; case ENOSPC: return "ENOSPC"; case ESRCH: return "ESRCH"; case EFAULT: return "EFAULT";
+    default: return "other";
+    }
+}
+static const int FORK_ERRNOS[] = { 0, EAGAIN, ENOMEM, ENOSYS, EINTR, EPERM, ECHILD, EINVAL, ENOSPC, -1 };      // -1: an arbitrary value 1..133
+static const int N_FORK_ERRNOS = 10;
+static bool fork_fails_on(const Plan& p, int pass) { return p.fork_fault && ((p.fork_passes >> pass) & 1); }
 static bool default_ignored(int sig) { return sig == SIGCHLD || sig == SIGURG || sig == SIGWINCH || sig == SIGCONT; }
 static bool deadly(int act, int arg) {
     switch (act) { case A_RAISE: return !default_ignored(arg); case A_EXIT: case A_UEXIT: case A_ABORT: case A_SEGV: case A_STOPS: return true; default: return false; }
@@ -59,8 +82,9 @@ static void perform(int act, int arg) {
 }
 static void act_at(const Plan& p, int where) {
     if (p.where != where) return;
-    if (deadly(p.act, p.arg) && g_parent_pid && (int) getpid() == g_parent_pid) {
-        if (!g_deadly_in_parent++) { g_deadly_act = p.act; g_deadly_where = p.where; g_deadly_arg = p.arg; g_deadly_ignored = p.ignored; }
+    // (a failing check inside a plugin action is outside the test's own failure handling: it ends the process that executes it)
+    if ((deadly(p.act, p.arg) || (p.act == A_FAILCHECK && (where == W_PRE || where == W_POST))) && g_parent_pid && (int) getpid() == g_parent_pid) {
+        if (!g_deadly_in_parent++) { g_deadly_act = p.act; g_deadly_where = p.where; g_deadly_arg = p.arg; g_deadly_ignored = p.ignored; g_deadly_fork_fault = g_current_test >= 0 && g_fork_failed_for_test == g_current_test; g_deadly_fork_errno = p.fork_errno; }
         return;
     }
     if (p.act == A_STOPS) { for (int i = 0; i < p.arg; i++) raise(SIGSTOP); perform(p.after, p.after_arg); }
@@ -76,7 +100,7 @@ public:
     explicit PlanTest(const Plan& p) : p_(p) {}
     ~PlanTest() { act_at(p_, W_DTOR); }
     void setup() CPPUTEST_OVERRIDE { act_at(p_, W_SETUP); }
-    void testBody() CPPUTEST_OVERRIDE { act_at(p_, W_BODY); }
+    void testBody() CPPUTEST_OVERRIDE { if (g_parent_pid && (int) getpid() == g_parent_pid) g_bodies_in_runner++; act_at(p_, W_BODY); }
     void teardown() CPPUTEST_OVERRIDE { act_at(p_, W_TEARDOWN); }
 };
 class PlanShell : public UtestShell {
@@ -105,7 +129,6 @@ struct ForkRec { size_t from; int test; };      // index into g_waits at the for
 static std::vector<WaitRec> g_waits;            // every waitpid result seen by the code under test (all tests of the pass)
 static std::vector<ForkRec> g_wait_mark;        // one per fork
 static int g_forks = 0;
-static int g_current_test = -1;                 // set by the recording output when a test starts
 static int g_blind_stop_waits;                  // stop events that arrived at a wait that had not asked for them (no WUNTRACED)
 static int g_waits_after_stop, g_waits_after_stop_asking;   // waits issued after a stop was reported / of those, asking for stop notifications again
 static bool g_stop_seen_in_test;
@@ -116,7 +139,24 @@ static void note_wait_options(int opts, bool result_is_stop) {
     if (g_stop_seen_in_test) { g_waits_after_stop++; if (opts & WUNTRACED) g_waits_after_stop_asking++; }
     if (result_is_stop) { g_stop_seen_in_test = true; if (!(opts & WUNTRACED)) g_blind_stop_waits++; }
 }
-static int rec_fork() { g_wait_mark.push_back(ForkRec{ g_waits.size(), g_current_test }); g_forks++; g_stop_seen_in_test = false; return real_fork(); }
+static const std::vector<Plan>* g_run_plans;    // plans by test index while a PlanRun is alive
+static int g_fork_faults_injected, g_fork_extra_attempts, g_fork_errno_on_entry; static bool g_fork_retry_unbounded;
+static int rec_fork() {
+    const Plan* p = (g_run_plans && g_current_test >= 0 && (size_t) g_current_test < g_run_plans->size()) ? &(*g_run_plans)[(size_t) g_current_test] : nullptr;
+    bool again = g_current_test >= 0 && !g_wait_mark.empty() && g_wait_mark.back().test == g_current_test;     // another attempt for the same test (the first one failed)
+    if (again) g_fork_extra_attempts++;
+    else { g_wait_mark.push_back(ForkRec{ g_waits.size(), g_current_test }); g_forks++; g_stop_seen_in_test = false; }
+    if (p && fork_fails_on(*p, g_pass)) {
+        // the fault lasts as long as the test: an implementation that tries again gets the same answer (bounded: after 1000 attempts it is let through)
+        if (g_fork_extra_attempts <= 1000) {
+            if (!again) { g_fork_faults_injected++; g_fork_errno_on_entry = errno; g_fork_failed_for_test = g_current_test; }
+            if (!p->fork_stale) errno = p->fork_errno;
+            return -1;
+        }
+        g_fork_retry_unbounded = true;
+    }
+    return real_fork();
+}
 static int rec_waitpid(int pid, int* status, int opts) {
     // The wait is always made WITH stop notifications, so that a stop the code under test did not ask to hear about
     // is seen here (and reported by the oracle) instead of blocking parent and harness for good.
@@ -168,6 +208,8 @@ public:
         g_current_test = -1;
         if (g_shell_index) { auto it = g_shell_index->find(&t); if (it != g_shell_index->end()) g_current_test = it->second; }
         started.push_back(g_current_test);
+        // a seam that fails without touching errno: errno still holds what an earlier, unrelated call left there
+        if (g_run_plans && g_current_test >= 0 && (size_t) g_current_test < g_run_plans->size()) { const Plan& p = (*g_run_plans)[(size_t) g_current_test]; if (fork_fails_on(p, g_pass) && p.fork_stale) errno = p.fork_errno; }
     }
     void printCurrentTestEnded(const TestResult& res) CPPUTEST_OVERRIDE { failures_at_end.push_back(res.getFailureCount()); }
 };
@@ -180,7 +222,8 @@ struct CaseRun {
 static void reset_pass_records() {
     g_waits.clear(); g_wait_mark.clear(); g_forks = 0; g_current_test = -1;
     g_blind_stop_waits = 0; g_waits_after_stop = 0; g_waits_after_stop_asking = 0; g_stop_seen_in_test = false;
-    g_deadly_in_parent = 0;
+    g_deadly_in_parent = 0; g_deadly_fork_fault = 0; g_bodies_in_runner = 0; g_fork_failed_for_test = -2;
+    g_fork_faults_injected = 0; g_fork_extra_attempts = 0; g_fork_errno_on_entry = 0; g_fork_retry_unbounded = false;
 }
 
 // a registry of scripted tests that can be run more than once (a later pass sees the shells as the first one left them)
@@ -188,9 +231,10 @@ struct PlanRun {
     std::map<const UtestShell*, Plan> pm; std::map<const UtestShell*, int> index;
     std::vector<UtestShell*> shells;             // shells[i] runs plans[i]
     std::deque<std::string> names;
+    std::vector<Plan> plans_; int passes_done = 0;
     TestRegistry reg; PlanPlugin plugin;
-    PlanRun(const std::vector<Plan>& plans, const Cfg& cfg) {
-        g_plans = &pm; g_shell_index = &index;
+    PlanRun(const std::vector<Plan>& plans, const Cfg& cfg) : plans_(plans) {
+        g_plans = &pm; g_shell_index = &index; g_run_plans = &plans_;
         reg.setCurrentRegistry(&reg);
         reg.installPlugin(&plugin);
         shells.resize(plans.size());
@@ -207,11 +251,12 @@ struct PlanRun {
         reg.removePluginByName("PlanPlugin");
         reg.setCurrentRegistry(NULLPTR);
         for (UtestShell* s : shells) delete s;
-        g_plans = nullptr; g_shell_index = nullptr;
+        g_plans = nullptr; g_shell_index = nullptr; g_run_plans = nullptr; g_pass = 0;
     }
     CaseRun run(bool scripted) {
         CaseRun cr;
         reset_pass_records();
+        g_pass = passes_done++;
         real_fork = PlatformSpecificFork; real_waitpid = PlatformSpecificWaitPid;
         PlatformSpecificFork = scripted ? scr_fork : rec_fork;
         PlatformSpecificWaitPid = scripted ? scr_waitpid : rec_waitpid;
@@ -278,7 +323,9 @@ static int expected_from_intent(const Plan& p) {
 }
 
 static std::string plan_json(const Plan& p) {
-    return vf::J().k("act", ACT[p.act]).k("where", WHERE[p.where]).k("arg", p.arg).k("after", ACT[p.after]).k("after_arg", p.after_arg).k("shell", p.ignored ? "IGNORE_TEST" : "TEST").str();
+    vf::J j; j.k("act", ACT[p.act]).k("where", WHERE[p.where]).k("arg", p.arg).k("after", ACT[p.after]).k("after_arg", p.after_arg).k("shell", p.ignored ? "IGNORE_TEST" : "TEST");
+    if (p.fork_fault) j.k("fork_fails_with_errno", p.fork_errno).k("errno_class", errno_label(p.fork_errno)).k("errno_left_by", p.fork_stale ? "an earlier call (the seam does not touch errno)" : "the failing fork").k("on_passes_mask", p.fork_passes);
+    return j.str();
 }
 static std::string plans_json(const std::vector<Plan>& ps) { std::vector<std::string> v; for (auto& p : ps) v.push_back(plan_json(p)); return vf::jarr(v); }
 
@@ -315,10 +362,16 @@ static void judge_pass(vf::Ctx& c, const std::vector<Plan>& plans, const Cfg& cf
         // nothing recorded and no later test run
         Plan d; d.act = g_deadly_act; d.where = g_deadly_where; d.arg = g_deadly_arg;
         bool ign = g_deadly_ignored != 0;
-        c.violation(std::string("death-not-contained:test-executed-in-the-runner-process:") + keyclass + ":" + (ign ? "IGNORE_TEST-run-ignored" : "TEST"),
-                    std::to_string(g_deadly_in_parent) + " deadly action(s) were about to be executed in the process that called runAllTests() (first: " + ACT[d.act] + " " + std::to_string(d.arg) + " @" + WHERE[d.where] + "); forks=" + std::to_string(g_forks) + " of " + std::to_string(n_run) + " tests that run" + ctx);
+        std::string what = g_deadly_fork_fault ? std::string("after-failed-fork:errno-") + errno_label(g_deadly_fork_errno) : std::string(ign ? "IGNORE_TEST-run-ignored" : "TEST");
+        c.violation(std::string("death-not-contained:test-executed-in-the-runner-process:") + keyclass + ":" + what,
+                    std::to_string(g_deadly_in_parent) + " deadly action(s) were about to be executed in the process that called runAllTests() (first: " + ACT[d.act] + " " + std::to_string(d.arg) + " @" + WHERE[d.where] + (g_deadly_fork_fault ? "; the fork for that test had failed with errno " + std::to_string(g_deadly_fork_errno) : std::string()) + "); forks=" + std::to_string(g_forks) + " of " + std::to_string(n_run) + " tests that run" + ctx);
         return;
     }
+    if (g_fork_retry_unbounded)
+        c.violation(std::string("fork-retried-without-bound:") + keyclass, "a fork that keeps failing was attempted more than 1000 times for one test" + ctx);
+    c.count("fork_faults_injected", (uint64_t) g_fork_faults_injected);
+    c.count("fork_attempts_repeated_after_a_failed_fork", (uint64_t) g_fork_extra_attempts);
+    c.count("test_bodies_executed_in_the_runner_process", (uint64_t) g_bodies_in_runner);
     size_t seen = 0; for (size_t i = 0; i < n; i++) if (cr.deltas[i] >= 0) seen++;
     if (cr.run_count != n_run || seen < n_run)
         c.violation(std::string("later-tests-not-run:") + keyclass, "tests that must run=" + std::to_string(n_run) + " of " + std::to_string(n) + " started+ended=" + std::to_string(seen) + " run=" + std::to_string(cr.run_count) + " forks=" + std::to_string(g_forks) + ctx);
@@ -333,6 +386,23 @@ static void judge_pass(vf::Ctx& c, const std::vector<Plan>& plans, const Cfg& cf
         size_t from, to; std::string trace;
         bool forked = wait_range((int) i, from, to);
         size_t want = expected_from_records(from, to, trace);
+        bool fork_failed = forked && fork_fails_on(plans[i], pass);
+        if (fork_failed) {
+            // no child: the failing fork is the one event of this test, whatever errno says and whatever the test would have done
+            const Plan& p = plans[i];
+            c.count(std::string("fork_faults_errno_") + errno_label(p.fork_errno));
+            if (p.fork_stale) c.count("fork_faults_errno_left_untouched_by_the_seam"); else c.count("fork_faults_errno_set_by_the_seam");
+            if (deadly(p.act, p.arg)) c.count("fork_faults_on_a_test_with_a_deadly_action");
+            else if (p.act == A_NONE || (p.act == A_RAISE && default_ignored(p.arg))) c.count("fork_faults_on_a_passing_test");
+            else c.count("fork_faults_on_a_test_that_fails_without_dying");
+            if (i + 1 < n) c.count("fork_faults_followed_by_further_tests");
+            if (cfg.repeats > 1 && p.fork_passes != 3) c.count(pass == 0 ? "fork_fails_on_first_pass_only" : "fork_fails_on_second_pass_only");
+            total += 1;
+            if (got != 1)
+                c.violation(std::string(got < 1 ? "fork-failure-not-recorded:" : "fork-failure-recorded-more-than-once:") + keyclass + ":errno-" + errno_label(p.fork_errno),
+                            "test " + std::to_string(i) + " " + plan_json(p) + ": the fork seam returned -1 (errno " + std::to_string(p.fork_errno) + (p.fork_stale ? ", left there by an earlier call and not touched by the seam; errno when the seam was entered for the first fault of the pass: " + std::to_string(g_fork_errno_on_entry) : std::string(", set by the seam")) + ") => exactly 1 failure for this test; parent recorded " + std::to_string(got) + ", wait results for it: " + (trace.empty() ? "none" : trace) + "; test bodies executed in the runner process during this pass: " + std::to_string(g_bodies_in_runner) + ctx);
+            continue;
+        }
         // classify what was observed for evidence
         if (to > from) {
             const WaitRec& last = g_waits[to - 1];
@@ -415,25 +485,30 @@ static void sec_exit(vf::Ctx& c) {
 }
 
 // ---- section: checks, crashes, stop/continue
+static Plan draw_plan(vf::Rng& rng) {
+    Plan p; p.where = (int) rng.below(W_N);
+    switch (rng.below(9)) {
+    case 8: { static const int N[] = { 2, 3, 127, 128, 255, 256, 257, 511, 512, 768, 1024 }; p.act = A_MANY_FAILURES; p.arg = N[rng.below(11)]; p.where = W_SETUP + (int) rng.below(3); break; }
+    case 7: p.act = A_PLUGIN_REPORTS; p.where = rng.chance(50) ? W_PRE : W_POST; break;
+    case 0: p.act = A_FAILCHECK; if (p.where == W_CTOR || p.where == W_DTOR) p.where = W_BODY; break;
+    case 1: p.act = A_ABORT; break;
+    case 2: p.act = A_SEGV; break;
+    case 3: p.act = A_STOPS; p.arg = rng.range(1, 3);
+            switch (rng.below(4)) { case 0: p.after = A_NONE; break; case 1: p.after = A_FAILCHECK; if (p.where == W_CTOR || p.where == W_DTOR) p.where = W_BODY; break; case 2: p.after = A_RAISE; p.after_arg = SIGKILL; break; default: p.after = A_UEXIT; p.after_arg = rng.range(0, 3); }
+            break;
+    case 4: p.act = A_RAISE; p.arg = rng.range(1, 31); break;
+    case 5: p.act = A_NONE; break;
+    default: p.act = A_UEXIT; p.arg = rng.range(0, 2); break;
+    }
+    return p;
+}
+
 static void sec_misc(vf::Ctx& c) {
     std::vector<Plan> plans;
     int ntests = c.rng.range(1, 4);
     std::string sig;
     for (int i = 0; i < ntests; i++) {
-        Plan p; p.where = (int) c.rng.below(W_N);
-        switch (c.rng.below(9)) {
-        case 8: { static const int N[] = { 2, 3, 127, 128, 255, 256, 257, 511, 512, 768, 1024 }; p.act = A_MANY_FAILURES; p.arg = N[c.rng.below(11)]; p.where = W_SETUP + (int) c.rng.below(3); break; }
-        case 7: p.act = A_PLUGIN_REPORTS; p.where = c.rng.chance(50) ? W_PRE : W_POST; break;
-        case 0: p.act = A_FAILCHECK; if (p.where == W_CTOR || p.where == W_DTOR) p.where = W_BODY; break;
-        case 1: p.act = A_ABORT; break;
-        case 2: p.act = A_SEGV; break;
-        case 3: p.act = A_STOPS; p.arg = c.rng.range(1, 3);
-                switch (c.rng.below(4)) { case 0: p.after = A_NONE; break; case 1: p.after = A_FAILCHECK; if (p.where == W_CTOR || p.where == W_DTOR) p.where = W_BODY; break; case 2: p.after = A_RAISE; p.after_arg = SIGKILL; break; default: p.after = A_UEXIT; p.after_arg = c.rng.range(0, 3); }
-                break;
-        case 4: p.act = A_RAISE; p.arg = c.rng.range(1, 31); break;
-        case 5: p.act = A_NONE; break;
-        default: p.act = A_UEXIT; p.arg = c.rng.range(0, 2); break;
-        }
+        Plan p = draw_plan(c.rng);
         plans.push_back(p);
         sig += std::string(ACT[p.act]) + std::to_string(p.arg) + WHERE[p.where] + ACT[p.after] + ";";
     }
@@ -442,6 +517,37 @@ static void sec_misc(vf::Ctx& c) {
     sig += cfg.via_shell_flag ? "s" : "r"; sig += std::to_string(cfg.repeats);
     c.begin([=] { return vf::J().raw("plans", plans_json(plans)).raw("config", cfg_json(cfg)).str(); });
     judge_real(c, plans, cfg, "mixed");
+    c.nontrivial(sig);
+}
+
+// ---- section: failing forks. A registry of 1..4 real tests (passing, failing, dying, stopping); the fork for at least one of
+// them fails, leaving each errno class in turn (set by the seam, or stale and untouched), on the first, second or both passes.
+static void sec_fork_faults(vf::Ctx& c) {
+    int forced_cls = (int) (c.idx % N_FORK_ERRNOS); bool forced_stale = (c.idx / N_FORK_ERRNOS) % 2 != 0;
+    std::vector<Plan> plans;
+    int ntests = c.rng.range(1, 4);
+    for (int i = 0; i < ntests; i++) plans.push_back(draw_plan(c.rng));
+    Cfg cfg; decorate(c.rng, plans, cfg, false);
+    size_t forced = c.rng.below((uint64_t) ntests);
+    if (c.rng.chance(50)) { plans[forced].act = c.rng.chance(50) ? A_NONE : A_UEXIT; plans[forced].arg = plans[forced].act == A_UEXIT ? c.rng.range(0, 3) : 0; plans[forced].after = A_NONE; plans[forced].after_arg = 0; }   // the plain cases: a passing test / a test that would have died
+    if (plans[forced].ignored) cfg.run_ignored = true;                 // the subject of the case has to happen
+    std::string sig;
+    for (size_t i = 0; i < plans.size(); i++) {
+        Plan& p = plans[i];
+        if (i == forced || c.rng.chance(30)) {
+            int cls = i == forced ? forced_cls : (int) c.rng.below(N_FORK_ERRNOS);
+            p.fork_fault = 1; p.fork_errno = FORK_ERRNOS[cls] >= 0 ? FORK_ERRNOS[cls] : c.rng.range(1, 133);
+            p.fork_stale = i == forced ? forced_stale : c.rng.chance(30);
+            p.fork_passes = cfg.repeats > 1 ? c.rng.range(1, 3) : 3;
+        }
+        sig += std::string(ACT[p.act]) + std::to_string(p.arg) + WHERE[p.where] + ACT[p.after] + (p.ignored ? (cfg.run_ignored ? "R" : "I") : "T");
+        if (p.fork_fault) sig += "F" + std::to_string(p.fork_errno) + (p.fork_stale ? "s" : "e") + std::to_string(p.fork_passes);
+        sig += ";";
+    }
+    sig += cfg.via_shell_flag ? "s" : "r"; sig += std::to_string(cfg.repeats);
+    c.begin([=] { return vf::J().raw("plans", plans_json(plans)).raw("config", cfg_json(cfg)).str(); });
+    judge_real(c, plans, cfg, "fork-fault");
+    errno = 0;
     c.nontrivial(sig);
 }
 
@@ -556,14 +662,22 @@ static Item terminal(vf::Rng& r, std::string& cls) {
     case 0: cls = "exit0"; return Item{ 2, st_exited(0) };
     case 1: cls = "exitN"; return Item{ 2, st_exited(r.range(1, 255)) };
     case 2: cls = "signaled"; return Item{ 2, st_signaled(r.range(1, 64) == 64 ? 64 : r.range(1, 31), r.chance(30)) };
-    default: { static const int E[] = { ECHILD, EINVAL, EPERM, ENOMEM }; cls = "errno"; return Item{ 1, E[r.below(4)] }; }
+    default: {      // a failing wait, with whatever errno (EINTR excepted: that is the retry path)
+        static const int E[] = { ECHILD, EINVAL, EPERM, ENOMEM, ENOSYS, EAGAIN, ESRCH, EFAULT, 0, -1 };
+        int e = E[r.below(10)]; if (e < 0) { e = r.range(1, 133); if (e == EINTR) e = 134; }
+        cls = std::string("wait-errno-") + errno_label(e); return Item{ 1, e };
+    }
     }
 }
 
-static bool s_fork_fails; static int s_forkcount;
-static int first_fork_may_fail_stub() { g_wait_mark.push_back(ForkRec{ g_waits.size(), -1 }); g_forks++; g_stop_seen_in_test = false; return (s_forkcount++ == 0 && s_fork_fails) ? -1 : (int) getpid(); }
+static bool s_fork_fails; static int s_forkcount; static int s_fork_errno = -1;      // -1: the stub leaves errno alone (as the repository's own stub does)
+static int first_fork_may_fail_stub() {
+    g_wait_mark.push_back(ForkRec{ g_waits.size(), -1 }); g_forks++; g_stop_seen_in_test = false;
+    if (s_forkcount++ == 0 && s_fork_fails) { if (s_fork_errno >= 0) errno = s_fork_errno; return -1; }
+    return (int) getpid();
+}
 
-static void run_script_case(vf::Ctx& c, const std::vector<Item>& script, bool fork_fails, int followers, const std::string& cls) {
+static void run_script_case(vf::Ctx& c, const std::vector<Item>& script, bool fork_fails, int followers, const std::string& cls, int fork_errno = -1) {
     int giveup_failures = 0;
     int k0 = learn_eintr_bound(giveup_failures);
     if (k0 < 0) { c.violation("eintr-retry-unbounded", "waitpid() returning EINTR was retried more than 1000 times"); return; }
@@ -581,7 +695,9 @@ static void run_script_case(vf::Ctx& c, const std::vector<Item>& script, bool fo
     g_script = full; g_pos = 0; g_calls = 0; g_overrun = false;
     // first test: fork result scripted; followers always fork "successfully"
     g_fork_result = fork_fails ? -1 : (int) getpid();
-    s_fork_fails = fork_fails; s_forkcount = 0;
+    s_fork_fails = fork_fails; s_forkcount = 0; s_fork_errno = fork_errno;
+    if (fork_fails) { c.count("scripted_fork_failures"); c.count(std::string("scripted_fork_failures_errno_") + (fork_errno < 0 ? "untouched" : errno_label(fork_errno))); }
+    for (const Item& it : script) if (it.kind == 1) { if (!fork_fails) c.count(std::string("scripted_wait_failures_errno_") + errno_label(it.val)); break; }
     CaseRun cr;
     {
         // custom fork stub: first call per case may fail
@@ -651,6 +767,8 @@ static void sec_eintr(vf::Ctx& c) {
 static void sec_scripts(vf::Ctx& c) {
     std::vector<Item> s; std::string cls, sig;
     bool fork_fails = c.rng.chance(8);
+    int fork_errno = -1;
+    if (fork_fails) { int k = (int) c.rng.below(N_FORK_ERRNOS + 1); fork_errno = k == N_FORK_ERRNOS ? -1 : FORK_ERRNOS[k] >= 0 ? FORK_ERRNOS[k] : c.rng.range(1, 133); }
     int shape = (int) c.rng.below(4);
     // (a) short EINTR prefix (well below any sane bound is not assumed: total EINTR kept <= 5), stops, terminal
     int stops = shape == 0 ? 0 : c.rng.range(0, 4);
@@ -664,11 +782,12 @@ static void sec_scripts(vf::Ctx& c) {
     std::string tcls; s.push_back(terminal(c.rng, tcls));
     // garbage after the terminal item must never be consumed
     if (c.rng.chance(40)) { s.push_back(Item{ 2, st_exited(9) }); s.push_back(Item{ 0, 0 }); }
-    cls = std::string(fork_fails ? "forkfail" : "") + (stops ? "stops+" : "") + tcls;
+    cls = fork_fails ? std::string("forkfail:errno-") + (fork_errno < 0 ? "untouched" : errno_label(fork_errno)) : std::string(stops ? "stops+" : "") + tcls;
     int followers = c.rng.range(0, 3);
-    c.begin([=] { return vf::J().k("class", cls).k("fork_fails", fork_fails).raw("script", script_json(s)).k("followers", followers).str(); });
-    run_script_case(c, s, fork_fails, followers, cls);
-    c.nontrivial(script_json(s) + (fork_fails ? "F" : ""));
+    c.begin([=] { return vf::J().k("class", cls).k("fork_fails", fork_fails).k("fork_errno", fork_errno).raw("script", script_json(s)).k("followers", followers).str(); });
+    run_script_case(c, s, fork_fails, followers, cls, fork_errno);
+    errno = 0;
+    c.nontrivial(script_json(s) + (fork_fails ? "F" + std::to_string(fork_errno) : ""));
 }
 
 int main(int argc, char** argv) {
@@ -683,6 +802,7 @@ int main(int argc, char** argv) {
         { "real_signals_x_crashpoints", 31 * W_N, 31 * W_N, sec_signals, true },
         { "real_exit_statuses", 40, 512, sec_exit, false },
         { "real_checks_crashes_stops", 150, 3000, sec_misc, false },
+        { "real_tests_failing_forks", 240, 4000, sec_fork_faults, false },
         { "real_eintr_storm", 8, 60, sec_real_eintr, false },
         { "scripted_eintr_runs", 41 * 6, 41 * 6, sec_eintr, true },
         { "scripted_fork_wait_sequences", 2000, 50000, sec_scripts, false },
